@@ -9,7 +9,7 @@ use zeromq::{Endpoint, ZmqError};
 use zvcore::evidence::{Check, Tier};
 use zvcore::refcodec as rc;
 
-const OPS: [&str; 14] = ["bind-tcp4", "bind-tcp6", "bind-localhost", "bind-ipc", "bind-duplicate", "unbind-oldest", "unbind-unknown", "connect-in-each", "exchange-established", "rebind-last-unbound", "150-failed-handshakes-on-oldest", "MODE:back-to-back-on-current-thread-runtime", "silent-client-stays-on-oldest", "bind-ipc-unusual-name"];
+const OPS: [&str; 15] = ["bind-tcp4", "bind-tcp6", "bind-localhost", "bind-ipc", "bind-duplicate", "unbind-oldest", "unbind-unknown", "connect-in-each", "exchange-established", "rebind-last-unbound", "150-failed-handshakes-on-oldest", "MODE:back-to-back-on-current-thread-runtime", "silent-client-stays-on-oldest", "bind-ipc-unusual-name", "bind-ipc-in-missing-directory"];
 /// Not an operation: as the first element of a sequence it selects the back-to-back mode - the calls follow each other
 /// with no suspension point of the application between them (on the current-thread runtime nothing a call spawned has
 /// been polled when the next call starts); the model is compared after the last call only.
@@ -82,6 +82,23 @@ async fn run_sequence(ty: Ty, seq: &[u8]) -> Vec<(String, String)> {
             continue;
         }
         match *op {
+            14 if SCRATCH_CWD.load(std::sync::atomic::Ordering::Relaxed) => {
+                // an ipc path whose directory does not exist (and that the harness never creates): the bind may fail - then
+                // nothing changes - or succeed - then everything said about a bound endpoint holds for it
+                let n = UNUSUAL.fetch_add(1, std::sync::atomic::Ordering::Relaxed);
+                let spec = format!("ipc://missing-dir/s{}.sock", n);
+                match sock.bind(&spec).await {
+                    Ok(ep) => {
+                        if model.contains(&ep) {
+                            viol.push(("bind/returned-endpoint-already-bound".into(), format!("{}: bind({}) returned {} which was already in the bind set", at, spec, ep)));
+                        }
+                        model.push(ep.clone());
+                        ever.push(ep);
+                    }
+                    Err(_) => {}
+                }
+            }
+            14 => {}
             0..=3 | 13 => {
                 let spec = match *op {
                     0 => "tcp://127.0.0.1:0".to_string(),
@@ -306,6 +323,9 @@ async fn run_sequence(ty: Ty, seq: &[u8]) -> Vec<(String, String)> {
     }
     let _ = sock.close().await;
     drop(silents);
+    if SCRATCH_CWD.load(std::sync::atomic::Ordering::Relaxed) {
+        let _ = std::fs::remove_dir_all("missing-dir");
+    }
     viol
 }
 
@@ -401,9 +421,9 @@ fn sequences(max_len: usize, max_len_with_failures: usize) -> Vec<Vec<u8>> {
     for _ in 0..max_len {
         let mut next = Vec::new();
         for s in &level {
-            for op in (0..MODE_AT_ONCE).chain([12u8, 13u8]) {
+            for op in (0..MODE_AT_ONCE).chain([12u8, 13u8, 14u8]) {
                 // operations that need a bound endpoint / a client are no-ops on an empty history: skip the duplicates
-                let binds = s.iter().filter(|o| **o <= 3 || **o == 13).count();
+                let binds = s.iter().filter(|o| **o <= 3 || **o == 13 || **o == 14).count();
                 if (op == 4 || op == 5 || op == 7) && binds == 0 {
                     continue;
                 }
@@ -418,6 +438,9 @@ fn sequences(max_len: usize, max_len_with_failures: usize) -> Vec<Vec<u8>> {
                     continue;
                 }
                 if op == 12 && (binds == 0 || s.contains(&12)) {
+                    continue;
+                }
+                if op == 14 && s.iter().filter(|o| **o == 14).count() >= 2 {
                     continue;
                 }
                 // the unusual ipc names: at most twice per sequence
@@ -634,7 +657,7 @@ pub fn run(tier: Tier, replay: Option<String>) -> i32 {
     ck.cov("sequences_by_length", json!(lens.iter().map(|(k, v)| (k.to_string(), *v)).collect::<std::collections::BTreeMap<_, _>>()));
     ck.cov("isolated_network_namespaces", isolated);
     ck.cov("exhaustive", skipped == 0);
-    ck.cov("rule", format!("every sequence of length <= {} over the 11 operations {:?} and two more, \"bind-ipc-unusual-name\" (ipc names relative to a private working directory in five spellings: leading '@', plain relative, with a space, non-ASCII, 90+ characters; at most twice per sequence) and \"silent-client-stays-on-oldest\" (a raw client connects, says nothing and stays; a well-behaved one right behind it must be served; at most once per sequence) (operations that need a bound endpoint or an established client are omitted where they would be no-ops; the last operation - 150 clients that close in mid-handshake one after the other, then a well-behaved one - at most once and in sequences of length <= {}) on a real REP and a real PULL socket on the real tokio runtime (multi-thread), plus every sequence of length <= {} over the bind/unbind operations alone in back-to-back mode on the current-thread runtime (no suspension point of the application between the calls, nothing a call spawned has been polled when the next call starts; model compared after the last call): {} sequences; distinct by construction; non-trivial = contains at least one bind. After EVERY operation: return value as the reference model says (wildcard port resolved non-zero, duplicate bind fails and changes nothing, unbind of anything not bound - an endpoint bound earlier, a far miss, and near misses of every bound endpoint (same port under another host name or address, same ipc path with a suffix) - fails with NoSuchBind and changes nothing), binds() equals the model's set, every bound endpoint accepts a fresh connection by its text form and completes a message exchange, every endpoint not bound (any more) refuses at once, connections established earlier keep working across later unbinds. Additionally, in a child process with a lowered descriptor limit: REP and PULL with two bound endpoints, accept() on one of them failing once for lack of descriptors - the endpoint stays in binds(), accepts a fresh connection afterwards and exchanges a message, the other endpoint is unaffected. Each worker process runs in its own network namespace so that no other process can take a port this check expects to be free.", tier.pick(4, 5), &OPS[..11], tier.pick(3, 4), tier.pick(3, 4), cases.len()));
+    ck.cov("rule", format!("every sequence of length <= {} over the 11 operations {:?} and two more, \"bind-ipc-unusual-name\" (ipc names relative to a private working directory in five spellings: leading '@', plain relative, with a space, non-ASCII, 90+ characters; at most twice per sequence) \"bind-ipc-in-missing-directory\" (an ipc path whose directory does not exist: the bind may fail, changing nothing, or succeed, and is then an ordinary bound endpoint; at most twice per sequence) and \"silent-client-stays-on-oldest\" (a raw client connects, says nothing and stays; a well-behaved one right behind it must be served; at most once per sequence) (operations that need a bound endpoint or an established client are omitted where they would be no-ops; the last operation - 150 clients that close in mid-handshake one after the other, then a well-behaved one - at most once and in sequences of length <= {}) on a real REP and a real PULL socket on the real tokio runtime (multi-thread), plus every sequence of length <= {} over the bind/unbind operations alone in back-to-back mode on the current-thread runtime (no suspension point of the application between the calls, nothing a call spawned has been polled when the next call starts; model compared after the last call): {} sequences; distinct by construction; non-trivial = contains at least one bind. After EVERY operation: return value as the reference model says (wildcard port resolved non-zero, duplicate bind fails and changes nothing, unbind of anything not bound - an endpoint bound earlier, a far miss, and near misses of every bound endpoint (same port under another host name or address, same ipc path with a suffix) - fails with NoSuchBind and changes nothing), binds() equals the model's set, every bound endpoint accepts a fresh connection by its text form and completes a message exchange, every endpoint not bound (any more) refuses at once, connections established earlier keep working across later unbinds. Additionally, in a child process with a lowered descriptor limit: REP and PULL with two bound endpoints, accept() on one of them failing once for lack of descriptors - the endpoint stays in binds(), accepts a fresh connection afterwards and exchanges a message, the other endpoint is unaffected. Each worker process runs in its own network namespace so that no other process can take a port this check expects to be free.", tier.pick(4, 5), &OPS[..11], tier.pick(3, 4), tier.pick(3, 4), cases.len()));
     ck.sample(json!({"type":"REP","ops":["bind-tcp4","connect-in-each","unbind-oldest","exchange-established"]}));
     ck.assume("OS schedules are not enumerated; conditions the statement ties to a return are tested immediately after the return");
     ck.conclude()
